@@ -144,3 +144,22 @@ package fstree
 //@ func (*genericWriter).writeAndRename
 //@   property C12, C13
 //@   ensures [success_only_after_rename] err == nil ==> tmpFileComplete() && renamedOK()
+
+// ---- C11 (streamed range reads): the stream returned for a range of length ln > 0 is
+// built from an already buffered part of the payload followed by the rest of the file,
+// limited to what is still missing. Length accounting: buffered part + limit == ln, for
+// every way the header read happened to split the payload (all prefix lengths, offsets).
+//@ callrule range_stream_length_accounting in shiftPayloadRangeStream
+//@   property C11
+//@   callee fstree.newPrefixedReadSeekCloser
+//@   requires [buffered_part_plus_limit_is_requested_length] ln != 0 ==> isType(a1, limitedFileReader) && wide(len(a0)) + wide(as(a1, limitedFileReader).limit) == wide(ln)
+
+//@ func checkTooBigRange
+//@   property C11
+//@   mode bv
+//@   pureeffect
+//@   ensures [nil_iff_both_fit_int64] err == nil <==> (off <= 9223372036854775807 && ln <= 9223372036854775807)
+
+//@ func shiftPayloadRangeStream
+//@   property C11
+//@   mode bv
